@@ -41,6 +41,13 @@ CLAIMED["C20"] = ("whole-module write/escape analysis of every package-level var
  "Decides that no operation writes package-level state (the necessary condition for independent handles to be race-free and result-independent), that no handle is reachable from a global, and that the only goroutine shares state under the ordering DRV-3/4/5 establish.",
  "DESIGN.md §4 C20")
 
+CLAIMED["C11"] = ("decision tables by path enumeration under assumed abstract classes (25 storage-class pairs; sign of three-way results; direction flag); operand-use analysis (comparisons only); collation idiom constants",
+ "Decides the complete storage-class matrix of compare(), the sign tables of the three-way helpers and that operands are touched only through comparisons (no wrapping arithmetic), the exact int/real scheme, the outcome table of Search/Equals per column incl. per-column collation, and the three collations' definitions. Concrete value pairs are not enumerated.",
+ "DESIGN.md §4 C11, §3.5")
+CLAIMED["C14"] = ("per-serial-type evaluation of parseRecord's loop body (guard = decoded bytes = advance = spec, sign-extension width); loop-body table of readVarint; canonical expression trees of the spill formulas vs the file format; overflow page layout",
+ "Decides the serial-type table, the 24/48-bit sign constants, the varint byte rules incl. the 9th-byte precedence, the X/M/K formulas and three-way choice, the overflow pointer/page layout and that overflow content is appended in whole pages. Not the concrete decoded values on real files.",
+ "DESIGN.md §4 C14")
+
 NA_REASON_NOT_BUILT = "check not built yet in this round; DESIGN.md §4 describes the structural clauses that will be claimed"
 ALL = ["C%02d" % i for i in range(1, 21)]
 
